@@ -6,93 +6,108 @@ import (
 	"fmt"
 	"reflect"
 	"sort"
+	"strings"
 
 	"cosmossdk.io/math"
 	sdk "github.com/cosmos/cosmos-sdk/types"
 	ammtypes "github.com/elys-network/elys/x/amm/types"
+	aptypes "github.com/elys-network/elys/x/assetprofile/types"
 	burnertypes "github.com/elys-network/elys/x/burner/types"
+	ctypes "github.com/elys-network/elys/x/commitment/types"
 	estypes "github.com/elys-network/elys/x/estaking/types"
 	llptypes "github.com/elys-network/elys/x/leveragelp/types"
 	mctypes "github.com/elys-network/elys/x/masterchef/types"
 	oracletypes "github.com/elys-network/elys/x/oracle/types"
+	paramtypes "github.com/elys-network/elys/x/parameter/types"
 	perptypes "github.com/elys-network/elys/x/perpetual/types"
 	sstypes "github.com/elys-network/elys/x/stablestake/types"
+	tktypes "github.com/elys-network/elys/x/tokenomics/types"
 	tstypes "github.com/elys-network/elys/x/tradeshield/types"
 )
 
-// Configuration-boundary sweep (C18): for every module that has a governance MsgUpdateParams, every
-// numeric / boolean top-level field of its Params is set, ONE field at a time, to its boundary values
-// (0 and 1 for integers, 0 / 1e-18 / 1 for decimals, the other value for booleans). The message goes
-// through its own ValidateBasic and the real router handler: what validation ACCEPTS is a
-// configuration governance can put the chain in, and block processing must survive it.
-// The field list comes from reflection over the Params types, so a new parameter is swept without
-// anybody remembering to add it.
+// Configuration-boundary sweep (C18): every numeric / decimal / boolean field of every governance
+// message is set, ONE field at a time, to its boundary values (0 and 1 for integers, 0 / 1e-18 / 1 for
+// decimals, the other value for booleans). The message goes through its own ValidateBasic and the
+// real router handler: what validation ACCEPTS is a configuration governance can put the chain in,
+// and block processing must survive it. The field list comes from reflection over the message types,
+// so a new parameter is swept without anybody remembering to add it.
 
-type autoMod struct {
-	Name string
-	Zero interface{} // zero Params value (for the static field enumeration)
-	Get  func(w *World, ctx sdk.Context) interface{}
-	Msg  func(gov string, p interface{}) sdk.Msg
-}
-
-func autoMods() []autoMod {
-	return []autoMod{
-		{"amm", ammtypes.Params{}, func(w *World, c sdk.Context) interface{} { p := w.App.AmmKeeper.GetParams(c); return &p },
-			func(g string, p interface{}) sdk.Msg { return &ammtypes.MsgUpdateParams{Authority: g, Params: p.(*ammtypes.Params)} }},
-		{"leveragelp", llptypes.Params{}, func(w *World, c sdk.Context) interface{} { p := w.App.LeveragelpKeeper.GetParams(c); return &p },
-			func(g string, p interface{}) sdk.Msg { return &llptypes.MsgUpdateParams{Authority: g, Params: p.(*llptypes.Params)} }},
-		{"perpetual", perptypes.Params{}, func(w *World, c sdk.Context) interface{} { p := w.App.PerpetualKeeper.GetParams(c); return &p },
-			func(g string, p interface{}) sdk.Msg { return &perptypes.MsgUpdateParams{Authority: g, Params: p.(*perptypes.Params)} }},
-		{"stablestake", sstypes.Params{}, func(w *World, c sdk.Context) interface{} { p := w.App.StablestakeKeeper.GetParams(c); return &p },
-			func(g string, p interface{}) sdk.Msg { return &sstypes.MsgUpdateParams{Authority: g, Params: p.(*sstypes.Params)} }},
-		{"masterchef", mctypes.Params{}, func(w *World, c sdk.Context) interface{} { p := w.App.MasterchefKeeper.GetParams(c); return &p },
-			func(g string, p interface{}) sdk.Msg { return &mctypes.MsgUpdateParams{Authority: g, Params: *p.(*mctypes.Params)} }},
-		{"estaking", estypes.Params{}, func(w *World, c sdk.Context) interface{} { p := w.App.EstakingKeeper.GetParams(c); return &p },
-			func(g string, p interface{}) sdk.Msg { return &estypes.MsgUpdateParams{Authority: g, Params: *p.(*estypes.Params)} }},
-		{"oracle", oracletypes.Params{}, func(w *World, c sdk.Context) interface{} { p := w.App.OracleKeeper.GetParams(c); return &p },
-			func(g string, p interface{}) sdk.Msg { return &oracletypes.MsgUpdateParams{Authority: g, Params: *p.(*oracletypes.Params)} }},
-		{"tradeshield", tstypes.Params{}, func(w *World, c sdk.Context) interface{} { p := w.App.TradeshieldKeeper.GetParams(c); return &p },
-			func(g string, p interface{}) sdk.Msg { return &tstypes.MsgUpdateParams{Authority: g, Params: p.(*tstypes.Params)} }},
-		{"burner", burnertypes.Params{}, func(w *World, c sdk.Context) interface{} { p := w.App.BurnerKeeper.GetParams(c); return &p },
-			func(g string, p interface{}) sdk.Msg { return &burnertypes.MsgUpdateParams{Authority: g, Params: *p.(*burnertypes.Params)} }},
-	}
-}
+// The sweep is driven by the SAME well-formed payloads the router enumeration (C17) builds for every
+// governance-only message type (38 types: every MsgUpdateParams plus pool parameters, vesting info,
+// reward denoms, pool multipliers, inflation entries, airdrops, the parameter module's setters, ...).
+// For each type, every numeric / decimal / boolean field of the message and of the structs it embeds
+// one level down (Params, PoolParams, Inflation, ...) is swept.
 
 type autoCfg struct {
-	Mod   string
-	Field string
-	Idx   int
+	URL   string // message type URL
+	Path  []int  // field index path (1 or 2 levels)
+	Label string // Msg.Field or Msg.Struct.Field
 	Cand  string
 }
 
-func (a autoCfg) Name() string { return fmt.Sprintf("cfgauto_%s_%s=%s", a.Mod, a.Field, a.Cand) }
+func (a autoCfg) Name() string { return fmt.Sprintf("cfgauto_%s=%s", a.Label, a.Cand) }
 
 var intType = reflect.TypeOf(math.Int{})
 var decType = reflect.TypeOf(math.LegacyDec{})
 
-// AutoCfgs is the static enumeration (module, field, boundary value).
+func candsFor(t reflect.Type) []string {
+	switch {
+	case t == intType:
+		return []string{"0", "1"}
+	case t == decType:
+		return []string{"0", "0.000000000000000001", "1"}
+	case t.Kind() == reflect.Int64 || t.Kind() == reflect.Uint64 || t.Kind() == reflect.Int32 || t.Kind() == reflect.Uint32:
+		return []string{"0", "1"}
+	case t.Kind() == reflect.Bool:
+		return []string{"toggle"}
+	}
+	return nil
+}
+
+// autoGovZero lists a zero value of every governance-only message type (kept in step with
+// govPayloads by C17's "governance-only message without a payload builder" finding and by
+// autoCfgSelfCheck below).
+func autoGovZero() []sdk.Msg {
+	return []sdk.Msg{
+		&ammtypes.MsgUpdatePoolParams{}, &ammtypes.MsgUpdateParams{}, &aptypes.MsgUpdateEntry{}, &burnertypes.MsgUpdateParams{},
+		&ctypes.MsgUpdateVestingInfo{}, &ctypes.MsgUpdateEnableVestNow{}, &estypes.MsgUpdateParams{}, &llptypes.MsgUpdateParams{},
+		&llptypes.MsgAddPool{}, &mctypes.MsgAddExternalRewardDenom{}, &mctypes.MsgUpdateParams{}, &mctypes.MsgTogglePoolEdenRewards{},
+		&oracletypes.MsgUpdateParams{}, &perptypes.MsgUpdateParams{}, &sstypes.MsgUpdateParams{}, &tktypes.MsgUpdateGenesisInflation{},
+		&tktypes.MsgCreateTimeBasedInflation{}, &tktypes.MsgUpdateTimeBasedInflation{}, &tktypes.MsgCreateAirdrop{}, &tktypes.MsgUpdateAirdrop{},
+		&tstypes.MsgUpdateParams{}, &paramtypes.MsgUpdateMinCommission{}, &paramtypes.MsgUpdateMaxVotingPower{}, &paramtypes.MsgUpdateMinSelfDelegation{},
+		&paramtypes.MsgUpdateTotalBlocksPerYear{}, &paramtypes.MsgUpdateRewardsDataLifetime{},
+	}
+}
+
+// AutoCfgs is the static enumeration (message type, field path, boundary value).
 func AutoCfgs() []autoCfg {
 	var out []autoCfg
-	for _, m := range autoMods() {
-		t := reflect.TypeOf(m.Zero)
+	for _, z := range autoGovZero() {
+		url := sdk.MsgTypeURL(z)
+		t := reflect.TypeOf(z).Elem()
+		short := strings.TrimPrefix(url, "/elys.")
 		for i := 0; i < t.NumField(); i++ {
 			f := t.Field(i)
 			if !f.IsExported() {
 				continue
 			}
-			var cands []string
-			switch {
-			case f.Type == intType:
-				cands = []string{"0", "1"}
-			case f.Type == decType:
-				cands = []string{"0", "0.000000000000000001", "1"}
-			case f.Type.Kind() == reflect.Int64 || f.Type.Kind() == reflect.Uint64 || f.Type.Kind() == reflect.Int32 || f.Type.Kind() == reflect.Uint32:
-				cands = []string{"0", "1"}
-			case f.Type.Kind() == reflect.Bool:
-				cands = []string{"toggle"}
+			for _, c := range candsFor(f.Type) {
+				out = append(out, autoCfg{url, []int{i}, short + "." + f.Name, c})
 			}
-			for _, c := range cands {
-				out = append(out, autoCfg{m.Name, f.Name, i, c})
+			ft := f.Type
+			if ft.Kind() == reflect.Ptr {
+				ft = ft.Elem()
+			}
+			if ft.Kind() == reflect.Struct && ft != intType && ft != decType {
+				for j := 0; j < ft.NumField(); j++ {
+					g := ft.Field(j)
+					if !g.IsExported() {
+						continue
+					}
+					for _, c := range candsFor(g.Type) {
+						out = append(out, autoCfg{url, []int{i, j}, short + "." + f.Name + "." + g.Name, c})
+					}
+				}
 			}
 		}
 	}
@@ -100,55 +115,71 @@ func AutoCfgs() []autoCfg {
 	return out
 }
 
+func setBoundary(fv reflect.Value, cand string) {
+	switch {
+	case fv.Type() == intType:
+		v, _ := math.NewIntFromString(cand)
+		fv.Set(reflect.ValueOf(v))
+	case fv.Type() == decType:
+		fv.Set(reflect.ValueOf(math.LegacyMustNewDecFromStr(cand)))
+	case fv.Kind() == reflect.Bool:
+		fv.SetBool(!fv.Bool())
+	case fv.Kind() == reflect.Int64 || fv.Kind() == reflect.Int32:
+		if cand == "1" {
+			fv.SetInt(1)
+		} else {
+			fv.SetInt(0)
+		}
+	case fv.Kind() == reflect.Uint64 || fv.Kind() == reflect.Uint32:
+		if cand == "1" {
+			fv.SetUint(1)
+		} else {
+			fv.SetUint(0)
+		}
+	}
+}
+
 func (a autoCfg) gov(w *World) func(ctx sdk.Context) error {
 	return func(ctx sdk.Context) error {
-		for _, m := range autoMods() {
-			if m.Name != a.Mod {
-				continue
-			}
-			p := m.Get(w, ctx)
-			fv := reflect.ValueOf(p).Elem().Field(a.Idx)
-			switch {
-			case fv.Type() == intType:
-				v, _ := math.NewIntFromString(a.Cand)
-				fv.Set(reflect.ValueOf(v))
-			case fv.Type() == decType:
-				fv.Set(reflect.ValueOf(math.LegacyMustNewDecFromStr(a.Cand)))
-			case fv.Kind() == reflect.Bool:
-				fv.SetBool(!fv.Bool())
-			case fv.Kind() == reflect.Int64 || fv.Kind() == reflect.Int32:
-				if a.Cand == "1" {
-					fv.SetInt(1)
-				} else {
-					fv.SetInt(0)
-				}
-			case fv.Kind() == reflect.Uint64 || fv.Kind() == reflect.Uint32:
-				if a.Cand == "1" {
-					fv.SetUint(1)
-				} else {
-					fv.SetUint(0)
-				}
-			}
-			msg := m.Msg(w.Gov, p)
-			if err := vb(msg); err != nil {
-				return fmt.Errorf("refused by ValidateBasic: %w", err)
-			}
-			h := w.App.MsgServiceRouter().Handler(msg)
-			if h == nil {
-				return fmt.Errorf("no handler for %s", sdk.MsgTypeURL(msg))
-			}
-			var err error
-			func() {
-				defer func() {
-					if r := recover(); r != nil {
-						err = fmt.Errorf("handler panic: %v", r)
-					}
-				}()
-				_, err = h(ctx, msg)
-			}()
+		tpl := govPayloadsAt(w, ctx)[a.URL]
+		if tpl == nil {
+			return fmt.Errorf("no payload template for %s", a.URL)
+		}
+		msg := cloneMsg(tpl)
+		sf, err := signerField(strings.TrimPrefix(a.URL, "/"))
+		if err != nil {
 			return err
 		}
-		return fmt.Errorf("unknown module %s", a.Mod)
+		if err := setField(msg, sf, w.Gov); err != nil {
+			return err
+		}
+		fv := reflect.ValueOf(msg).Elem().Field(a.Path[0])
+		if len(a.Path) == 2 {
+			if fv.Kind() == reflect.Ptr {
+				if fv.IsNil() {
+					fv.Set(reflect.New(fv.Type().Elem()))
+				}
+				fv = fv.Elem()
+			}
+			fv = fv.Field(a.Path[1])
+		}
+		setBoundary(fv, a.Cand)
+		if err := vb(msg); err != nil {
+			return fmt.Errorf("refused by ValidateBasic: %w", err)
+		}
+		h := w.App.MsgServiceRouter().Handler(msg)
+		if h == nil {
+			return fmt.Errorf("no handler for %s", a.URL)
+		}
+		func() {
+			defer func() {
+				if r := recover(); r != nil {
+					err = fmt.Errorf("handler panic: %v", r)
+				}
+			}()
+			_, err = h(ctx, msg)
+		}()
+		return err
 	}
 }
 
